@@ -129,13 +129,27 @@ func (p *Program) resolveRenamedAnchor(pkgRel, name string) *types.Func {
 	}
 	var cands []cand
 	pkg := p.Pkg(pkgRel)
+	// the receiver type itself may have been renamed: then the method keeps its name and the
+	// candidates are the same-named, same-signature methods of types that are not anchors
+	recvGone := rec.Recv != "" && pkg.Types.Scope().Lookup(rec.Recv) == nil
+	methodName := name
+	if i := strings.Index(name, "."); i >= 0 {
+		methodName = name[i+1:]
+	}
 	for fn := range p.funcDecls {
-		if fn.Pkg() != pkg.Types || recvName(fn) != rec.Recv || sigString(fn) != rec.Sig {
+		if fn.Pkg() != pkg.Types || sigString(fn) != rec.Sig {
+			continue
+		}
+		if recvGone {
+			if recvName(fn) == "" || fn.Name() != methodName {
+				continue
+			}
+		} else if recvName(fn) != rec.Recv {
 			continue
 		}
 		full := fn.Name()
 		if rec.Recv != "" {
-			full = rec.Recv + "." + fn.Name()
+			full = recvName(fn) + "." + fn.Name()
 		}
 		if taken[full] {
 			continue
@@ -156,7 +170,11 @@ func (p *Program) resolveRenamedAnchor(pkgRel, name string) *types.Func {
 		cands = append(cands, cand{fn, score})
 	}
 	sort.Slice(cands, func(i, j int) bool { return cands[i].score > cands[j].score })
-	if len(cands) == 0 || cands[0].score < 0.5 {
+	minScore := 0.5
+	if recvGone {
+		minScore = 0.3 // receiver renamed as well: fields of the type usually changed with it
+	}
+	if len(cands) == 0 || cands[0].score < minScore {
 		return nil
 	}
 	if len(cands) > 1 && cands[1].score > cands[0].score-0.2 {
